@@ -143,6 +143,12 @@ def near_misses(ds):
     return [d for d in out if d and any(d)]
 
 
+def passthrough(e):
+    """The runner's per-case alarm (CaseTimeout) must never be taken for an exception of the code under test."""
+    if type(e).__name__ == "CaseTimeout":
+        raise e
+
+
 def gen_cases(tier, seed):
     triples = name_triples(tier)
     for kind, names in triples.items():
@@ -279,6 +285,7 @@ def judge(fails, seen, da, db, sa, sb, ca, cb, note=None, clause="C17.prop"):
     try:
         got = (da == db)
     except Exception as e:                                  # noqa: BLE001 - repo code under test
+        passthrough(e)
         site = "Dataset.__eq__ raises"
         if seen.get(site, 0) < 2:
             fails.append({"clause": clause, "site": site,
@@ -306,7 +313,8 @@ def judge(fails, seen, da, db, sa, sb, ca, cb, note=None, clause="C17.prop"):
             try:
                 if (build(ra, "ra") == build(rb, "rb")) is expect:
                     site = SITE_NAMES
-            except Exception:                               # noqa: BLE001
+            except Exception as e:                               # noqa: BLE001
+                passthrough(e)
                 pass
     if seen.get(site, 0) < 2:
         fails.append({"clause": clause, "site": site,
@@ -353,6 +361,7 @@ def check_case(case):
             try:
                 ok = (da == other) is True
             except Exception as e:                          # noqa: BLE001
+                passthrough(e)
                 ok = False
                 what += " raised %s: %s" % (type(e).__name__, e)
             if not ok:
@@ -365,6 +374,7 @@ def check_case(case):
                     fails.append({"clause": "C17.notimpl", "site": "Dataset.__eq__",
                                   "detail": {"a": sa, "other": repr(other), "got": "not False"}})
             except Exception as e:                          # noqa: BLE001
+                passthrough(e)
                 fails.append({"clause": "C17.notimpl", "site": "Dataset.__eq__",
                               "detail": {"a": sa, "other": repr(other), "exception": "%s: %s" % (type(e).__name__, e)}})
         # Ranking.__eq__ against the same oracle (single rankings of this dataset vs all concrete rankings)
@@ -381,6 +391,7 @@ def check_case(case):
                 try:
                     got = (ra == o2)
                 except Exception as e:                      # noqa: BLE001
+                    passthrough(e)
                     got = "%s: %s" % (type(e).__name__, e)
                 if got is not exp and seen.get("req", 0) < 2:
                     seen["req"] = seen.get("req", 0) + 1
